@@ -2,7 +2,7 @@ use crate::metadata::*;
 use crate::debug::*;
 use crate::config;
 use std::collections::{HashSet, HashMap};
-use std::io::{Read, Write};
+use std::io::{Read, Write, BufReader};
 use std::time::Instant;
 use std::rc::Rc;
 use std::cell::RefCell;
@@ -615,7 +615,9 @@ pub struct Memory {
     cells: Vec<Cell>,
     first_free: usize,
     pub stdout: Box<dyn Write>,
-    pub stdin:  Box<dyn Read>,
+    // one buffered reader for the whole life of the interpreter: bytes the operating system
+    // delivers beyond the end of a line stay buffered for the next read
+    pub stdin:  BufReader<Box<dyn Read>>,
     pub umbilical: Option<UmbilicalLowEnd>,
 }
 
@@ -628,7 +630,7 @@ impl Memory {
                cells:          (0 .. config::INITIAL_FREE_CELLS).map(|_| Default::default()).collect(),
                first_free:     0,
                stdout:         Box::new(std::io::stdout()),
-               stdin:          Box::new(std::io::stdin()),
+               stdin:          BufReader::new(Box::new(std::io::stdin())),
                umbilical:      None}
     }
 
@@ -637,7 +639,7 @@ impl Memory {
     }
 
     pub fn set_stdin(&mut self, stdin: Box<dyn Read>) {
-        self.stdin = stdin;
+        self.stdin = BufReader::new(stdin);
     }
 
     pub fn attach_umbilical(&mut self, umbilical: UmbilicalLowEnd) {
